@@ -323,3 +323,88 @@ def mon_suspend(prog, rr, envf=None):
                     if not any(e[0] == fname and e[1] == f and e[2] == "recur" for e in evs):
                         probs.append(("lower-frame-not-resumed", "tick %d aux %s completed but %s did not recur in the same tick" % (k, aux, f)))
     return probs
+
+
+# ------------------------------------------------------------------------------- C11
+
+def _clock_clause_holds(it, e, r):
+    from mc.flo.ref import check
+    if it[0] == "timeout":
+        return e >= float(abs(it[1]))
+    if it[0] == "repeat":
+        return r >= int(abs(it[1]))
+    if it[0] == "go":
+        ok = True
+        for n in it[2]:
+            if n[0] == "elapsed":
+                v = check(e, n[1], n[2], 0)
+            elif n[0] == "recurred":
+                v = check(r, n[1], n[2], 0)
+            else:
+                return None
+            v = (not v) if n[-1] else v
+            ok = ok and v
+        return ok
+    return None
+
+
+def mon_clocks(prog, rr, envf=None, framer_names=None):
+    """Literal reading of C11 on a run of flat (un-nested) frames whose transitions depend on clocks only:
+    at every evaluation elapsed == store time - time of the last outline change (float difference of the
+    observed stamps) and recurred == completed iterations since; the first clause (script order) whose
+    clock condition holds fires, at the first evaluation at which it holds; nothing else fires."""
+    probs = []
+    fms = fm_index(prog)
+    for fm in prog["framers"]:
+        name = fm["name"]
+        if framer_names is not None and name not in framer_names:
+            continue
+        nx = lang.next_of(fm)
+        fidx = lang.frame_index(fm)
+        c = None            # tick index of last outline change
+        active = None
+        for k, snap in enumerate(rr.ticks):
+            s = snap_by_name(snap)[name]
+            now_active = s[4]
+            if now_active is None:
+                c, active = None, None
+                continue
+            stamp = snap["stamp"]
+            if active is None:
+                # just started (enterAll) in this tick
+                c, active = k, now_active
+                exp_e, exp_r = 0.0, 0
+            else:
+                e = stamp - rr.ticks[c]["stamp"]
+                r = k - c
+                fr = fidx[active]
+                target = None
+                for it in fr["items"]:
+                    h = _clock_clause_holds(it, e, r)
+                    if h:
+                        far = "next" if it[0] in ("timeout", "repeat") else it[1]
+                        target = nx[active] if far == "next" else (active if far == "me" else far)
+                        break
+                if target is not None:
+                    if now_active != target or not any(ev[0] == name and ev[1] == target and ev[2] == "enter" for ev in rr.events[k]):
+                        probs.append(("clock-transition-missed",
+                                      "tick %d framer %s frame %s: elapsed %r recurred %d satisfy a clause to %s but active is %s"
+                                      % (k, name, active, e, r, target, now_active)))
+                        return probs
+                    c, active = k, target
+                    exp_e, exp_r = 0.0, 0
+                else:
+                    if now_active != active or any(ev[0] == name and ev[2] == "enter" for ev in rr.events[k]):
+                        probs.append(("clock-transition-early",
+                                      "tick %d framer %s frame %s: elapsed %r recurred %d satisfy no clause but outline changed to %s"
+                                      % (k, name, active, e, r, now_active)))
+                        return probs
+                    exp_e, exp_r = e, r
+            if s[6] != exp_e:
+                probs.append(("elapsed-wrong", "tick %d framer %s elapsed share %r expected %r (stamp %r, change stamp %r)"
+                              % (k, name, s[6], exp_e, stamp, rr.ticks[c]["stamp"])))
+                return probs
+            if s[7] != exp_r:
+                probs.append(("recurred-wrong", "tick %d framer %s recurred share %r expected %r" % (k, name, s[7], exp_r)))
+                return probs
+    return probs
